@@ -88,13 +88,15 @@ Record pubspec := mkPS { ps_branch : option pd; ps_global : option pd }.
 Definition nonempty (o : option pd) : bool :=
   match o with Some (_ :: _) => true | _ => false end.
 
-(* PublishSpec.merge(self, spec_to_merge): merge_dicts mutates self's dict in place;
-   when self's part is None the merged result is discarded *)
+(* PublishSpec.merge(self, spec_to_merge), per part (fix f28ee2d0):
+   `self._x = merge_dicts(deepcopy(self._x), other._x)` when the other part is non-empty;
+   merge_dicts(None, right) returns right, so an absent part takes the other side's *)
 Definition merge_part (mine theirs : option pd) : option pd :=
   if nonempty theirs then
     match mine, theirs with
     | Some m, Some t => Some (pmerge m t)
-    | _, _ => mine
+    | None, Some t => Some t
+    | _, None => mine
     end
   else mine.
 
